@@ -28,7 +28,7 @@ EXE = "amodel_c17"
 # ------------------------------------------------------------------------------------------------
 # the real code
 
-def _drive(ctx, cdi, cdo, ev, inp, conv):
+def _drive(ctx, cdi, cdo, ev, set_input):
     from amaranth.hdl import Cat
     if ev == "i":
         ctx.set(cdi.clk, 1); ctx.set(cdi.clk, 0)
@@ -37,64 +37,132 @@ def _drive(ctx, cdi, cdo, ev, inp, conv):
     elif ev == "b":
         ctx.set(Cat(cdi.clk, cdo.clk), 3); ctx.set(Cat(cdi.clk, cdo.clk), 0)
     else:
-        ctx.set(inp, conv(ev))
+        set_input(ctx, ev)
+
+
+def make_input(form, w, is_signed, i0, aux):
+    """The synchroniser's input as the user may write it: a Signal whose power-on value is `i0`
+    (any value, not only 0), or an expression over other signals whose power-on value is `i0`.
+    returns (value handed to the constructor, setter(ctx, bit pattern))"""
+    from amaranth.hdl import Signal, Const, Cat, signed, unsigned
+    mask = (1 << w) - 1
+    i0 &= mask
+
+    def to_signed(p):
+        p &= mask
+        return (p ^ (1 << (w - 1))) - (1 << (w - 1))
+    if form == "signal":
+        if is_signed:
+            sig = Signal(signed(w), init=to_signed(i0))
+            return sig, lambda ctx, p: ctx.set(sig, to_signed(p))
+        sig = Signal(unsigned(w), init=i0)
+        return sig, lambda ctx, p: ctx.set(sig, p)       # ctx.set truncates an out-of-range value
+    if form == "slice":
+        lo, hi = aux % 3, (aux // 3) % 3
+        junk = aux // 9
+        big = Signal(lo + w + hi, init=((junk << (lo + w)) | (i0 << lo) | (junk & ((1 << lo) - 1))) & ((1 << (lo + w + hi)) - 1))
+        val = big[lo:lo + w]
+        setter = lambda ctx, p: ctx.set(big[lo:lo + w], p & mask)
+    elif form == "xor":
+        c = aux & mask
+        sig = Signal(w, init=i0 ^ c)
+        val = sig ^ Const(c, w)
+        setter = lambda ctx, p: ctx.set(sig, (p & mask) ^ c)
+    elif form == "not":
+        sig = Signal(w, init=~i0 & mask)
+        val = ~sig
+        setter = lambda ctx, p: ctx.set(sig, ~p & mask)
+    elif form == "cat":
+        k = aux % (w + 1)
+        a = Signal(k, init=i0 & ((1 << k) - 1))
+        b = Signal(w - k, init=i0 >> k)
+        val = Cat(a, b)
+        setter = lambda ctx, p: ctx.set(Cat(a, b), p & mask)
+    else:
+        raise AssertionError(form)
+    if is_signed:
+        val = val.as_signed()
+    return val, setter
 
 
 def simulate(case):
     """run one case on the real primitives; returns the list of outputs (one before any event, one
-    after every event), as unsigned bit patterns, or ("error", kind)"""
+    after every event), as unsigned bit patterns, or ("error", kind).
+    `case["omit"]` lists the constructor arguments that are *not passed* (the case then carries the
+    documented default as the parameter's value), `case["iform"]` says how the input is written."""
     from amaranth.hdl import Module, Signal, ClockDomain, signed, unsigned
     from amaranth.sim import Simulator
     from amaranth.lib import cdc
     try:
         kind, n, evs = case["kind"], case["n"], case["evs"]
+        omit = set(case.get("omit", ()))
+        iform, aux = case.get("iform", "signal"), case.get("aux", 0)
+        dom_kw = "domain" if kind == "reset" else "o_domain"
+        od = "sync" if dom_kw in omit else "o"            # documented default of o_domain / domain
         m = Module()
         m.domains.i = cdi = ClockDomain("i")
-        m.domains.o = cdo = ClockDomain("o", async_reset=bool(case.get("async_dom")))
+        cdo = ClockDomain(od, async_reset=bool(case.get("async_dom")))
+        m.domains += cdo
         heartbeat = Signal()
         m.d.i += heartbeat.eq(~heartbeat)          # makes "i" a real clock of the design
-        conv = int
+        kw = {}
+        if "stages" not in omit:
+            kw["stages"] = n
+        elif n != 2:
+            raise AssertionError("stages omitted but n != 2")
+        if dom_kw not in omit and kind != "pulse":
+            kw[dom_kw] = od
         mask = 1
         if kind == "ff":
             w = case["w"]
             mask = (1 << w) - 1
-            shape = signed(w) if case["signed"] else unsigned(w)
-            if case["signed"]:
-                conv = lambda p: ((p & mask) ^ (1 << (w - 1))) - (1 << (w - 1)) if p <= mask else p
-            inp = Signal(shape, init=conv(case["i0"]))
-            out = Signal(shape)
-            m.submodules.dut = cdc.FFSynchronizer(inp, out, o_domain="o", stages=n, init=case["init"],
-                                                  reset_less=case.get("reset_less", True))
+            inp, set_input = make_input(iform, w, case["signed"], case["i0"], aux)
+            out = Signal(signed(w) if case["signed"] else unsigned(w))
+            if "init" not in omit:
+                kw[case.get("init_kw", "init")] = case["init"]     # "init" or the deprecated "reset"
+            elif case["init"] != 0:
+                raise AssertionError("init omitted but init != 0")
+            elif case.get("init_none"):
+                kw["init"] = None                                   # the signature's default, spelled out
+            if "reset_less" not in omit:
+                kw["reset_less"] = case.get("reset_less", True)
+            m.submodules.dut = cdc.FFSynchronizer(inp, out, **kw)
         elif kind == "async":
-            inp = Signal(init=case["i0"])
+            inp, set_input = make_input(iform, 1, False, case["i0"], aux)
             out = Signal()
-            m.submodules.dut = cdc.AsyncFFSynchronizer(inp, out, o_domain="o", stages=n,
-                                                       async_edge="pos" if case["pos"] else "neg")
+            if "async_edge" not in omit:
+                kw["async_edge"] = "pos" if case["pos"] else "neg"
+            elif not case["pos"]:
+                raise AssertionError("async_edge omitted but not pos")
+            m.submodules.dut = cdc.AsyncFFSynchronizer(inp, out, **kw)
         elif kind == "reset":
-            inp = Signal(init=case["i0"])
+            inp, set_input = make_input(iform, 1, False, case["i0"], aux)
             out = cdo.rst
-            m.submodules.dut = cdc.ResetSynchronizer(inp, domain="o", stages=n)
+            m.submodules.dut = cdc.ResetSynchronizer(inp, **kw)
             user = Signal(4)
-            m.d.o += user.eq(user + 1)             # something for the synchronised reset to reset
+            m.d[od] += user.eq(user + 1)           # something for the synchronised reset to reset
         elif kind == "pulse":
-            dut = m.submodules.dut = cdc.PulseSynchronizer("i", "o", stages=n)
-            inp, out = dut.i, dut.o
+            dut = m.submodules.dut = cdc.PulseSynchronizer("i", od, **kw)
+            out = dut.o
+            set_input = lambda ctx, p: ctx.set(dut.i, p)
         else:
             raise AssertionError(kind)
         if kind != "reset":
             keep = Signal()
-            m.d.o += keep.eq(~keep)
+            m.d[od] += keep.eq(~keep)
         sim = Simulator(m)
         outs = []
 
         async def tb(ctx):
             outs.append(ctx.get(out) & mask)
             for ev in evs:
-                _drive(ctx, cdi, cdo, ev, inp, conv)
+                _drive(ctx, cdi, cdo, ev, set_input)
                 outs.append(ctx.get(out) & mask)
         sim.add_testbench(tb)
         sim.run()
         return outs
+    except AssertionError:
+        raise
     except Exception as e:                          # noqa: BLE001 - mapped to an error kind
         return ("error", common.errkind(e), str(e)[:200])
 
@@ -108,10 +176,11 @@ def simulate_many(cases, workers):
 
 
 def f4_in_driven_domain():
-    """Informational: finding F4 (a rising async reset runs the whole sync process) does not reach
-    the outputs of the primitives (every flop of the private domain is resettable to 1), but it is
-    visible in a *user* domain with async_reset=True driven by ResetSynchronizer: a reset-less
-    counter there advances when `arst` rises without any clock edge."""
+    """Informational: finding F4 (a rising async reset ran the whole sync process) never reached
+    the outputs of the primitives (every flop of the private domain is resettable to 1); it was
+    visible in a *user* domain with async_reset=True driven by ResetSynchronizer, where a
+    reset-less counter advanced when `arst` rose without any clock edge.  Records whether the tree
+    under test still does that (`advanced`)."""
     from amaranth.hdl import Module, Signal, ClockDomain
     from amaranth.sim import Simulator
     from amaranth.lib import cdc
@@ -182,8 +251,24 @@ def rand_ff(rng):
         else: evs.append(rng.randint(0, mask))
     if sg:
         evs = [e if isinstance(e, str) or e <= mask else e & mask for e in evs]
-    return {"kind": "ff", "n": n, "w": w, "signed": sg, "init": init, "i0": rng.randint(0, mask),
-            "reset_less": rng.random() < 0.8, "evs": evs}
+    c = {"kind": "ff", "n": n, "w": w, "signed": sg, "init": init, "i0": rng.randint(0, mask),
+         "reset_less": rng.random() < 0.8, "evs": evs}
+    # how the constructor is called: which arguments are left to their defaults, how the input is written
+    omit = []
+    if rng.random() < 0.4:
+        omit.append("init"); c["init"] = 0
+        c["init_none"] = rng.random() < 0.25
+        if mask and rng.random() < 0.7:
+            c["i0"] = rng.randint(1, mask)          # an input whose own power-on value is not 0
+    elif rng.random() < 0.1:
+        c["init_kw"] = "reset"
+    if n == 2 and rng.random() < 0.5: omit.append("stages")
+    if rng.random() < 0.3: omit.append("o_domain")
+    if c["reset_less"] and rng.random() < 0.5: omit.append("reset_less")
+    c["omit"] = omit
+    c["iform"] = rng.choice(["signal", "signal", "slice", "xor", "not", "cat"])
+    c["aux"] = rng.getrandbits(16)
+    return c
 
 
 def rand_async(rng):
@@ -198,8 +283,13 @@ def rand_async(rng):
         elif x < p_set + 0.08: evs.append("i")
         elif x < p_set + 0.18: evs.append("b")
         else: evs.append("o")
+    omit = []
+    if n == 2 and rng.random() < 0.5: omit.append("stages")
+    if kind == "async" and pos and rng.random() < 0.5: omit.append("async_edge")
+    if rng.random() < 0.3: omit.append("domain" if kind == "reset" else "o_domain")
     return {"kind": kind, "n": n, "pos": pos, "i0": rng.randint(0, 1),
-            "async_dom": kind == "reset" and rng.random() < 0.5, "evs": evs}
+            "async_dom": kind == "reset" and rng.random() < 0.5, "evs": evs, "omit": omit,
+            "iform": rng.choice(["signal", "signal", "slice", "xor", "not"]), "aux": rng.getrandbits(16)}
 
 
 def rand_pulse(rng):
@@ -229,7 +319,8 @@ def rand_pulse(rng):
         if rng.random() < 0.5:
             evs.append(0)
         evs += ["o"] * (n + rng.randint(0, 2))
-    return {"kind": "pulse", "n": n, "mode": mode, "evs": evs}
+    return {"kind": "pulse", "n": n, "mode": mode, "evs": evs,
+            "omit": ["stages"] if n == 2 and rng.random() < 0.5 else []}
 
 
 def reachable_many(chk, graphs, limit=5000):
@@ -271,11 +362,20 @@ def exhaustive_cases(chk, quick):
     ff_cfg = [(2, 0), (2, 1), (3, 1), (2, 2), (4, 1)] + ([] if quick else [(3, 2), (5, 1), (2, 3)])
     for n, w in ff_cfg:
         for init in sorted({0, (1 << w) - 1}):
+            if quick and w >= 2 and init == 0:
+                continue        # quick tier: init 0 on the big graph is covered by the default-form variant below
             base = {"kind": "ff", "n": n, "w": w, "signed": False, "init": init, "i0": 0}
             other = 0 if w == 0 else 1
             graphs.append((base, ["o", "b", "i"] + list(range(1 << w))))
             meta.append(({"primitive": "FFSynchronizer", "stages": n, "width": w, "init": init},
                          [["o"] * n, [other] + ["b"] * n]))
+        # every argument that has a default left out, on an input whose own power-on value is all-ones
+        base = {"kind": "ff", "n": n, "w": w, "signed": False, "init": 0, "i0": (1 << w) - 1,
+                "omit": ["init", "o_domain", "reset_less"] + (["stages"] if n == 2 else []),
+                "iform": "signal" if n % 2 == 0 else "not"}
+        graphs.append((base, ["o", "b", "i"] + list(range(1 << w))))
+        meta.append(({"primitive": "FFSynchronizer", "stages": n, "width": w, "init": "omitted", "i0": (1 << w) - 1},
+                     [["o"] * n, [0] + ["b"] * n]))
     for n in (2, 3, 4, 5):
         for kind, pos, adom in [("async", True, False), ("async", False, False), ("reset", True, False), ("reset", True, True)]:
             for i0 in (0, 1):
@@ -286,6 +386,16 @@ def exhaustive_cases(chk, quick):
                               "stages": n, "async_edge": "pos" if pos else "neg", "i0": i0,
                               "async_reset_target": adom},
                              [["o"] * (n + 1), [rel] + ["o"] * (n + 1)]))
+    for kind, iform in [("async", "signal"), ("async", "not"), ("reset", "signal"), ("reset", "not")]:
+        for i0 in (0, 1):
+            base = {"kind": kind, "n": 2, "pos": True, "i0": i0, "iform": iform,
+                    "omit": ["stages", "domain"] if kind == "reset" else ["stages", "async_edge", "o_domain"]}
+            graphs.append((base, ["o", "b", "i", 0, 1]))
+            meta.append(({"primitive": "ResetSynchronizer" if kind == "reset" else "AsyncFFSynchronizer",
+                          "stages": "omitted", "async_edge": "omitted", "domain": "omitted", "i0": i0, "input": iform},
+                         [["o"] * 3, [0] + ["o"] * 3]))
+    graphs.append(({"kind": "pulse", "n": 2, "omit": ["stages"]}, ["i", "o", "b", 0, 1]))
+    meta.append(({"primitive": "PulseSynchronizer", "stages": "omitted"}, [["o"] * 4, ["i"] + ["o"] * 4]))
     for n in ([2, 3] if quick else [2, 3, 4, 5]):
         graphs.append(({"kind": "pulse", "n": n}, ["i", "o", "b", 0, 1]))
         meta.append(({"primitive": "PulseSynchronizer", "stages": n},
@@ -404,7 +514,7 @@ def run(chk):
     rng = chk.rng
     quick = chk.tier == "quick"
     workers = int(os.environ.get("VERIF_WORKERS", "16"))
-    n_rand = int(os.environ.get("VERIF_C17_RANDOM", "1500" if quick else "40000"))
+    n_rand = int(os.environ.get("VERIF_C17_RANDOM", "1200" if quick else "40000"))
 
     cases, info = exhaustive_cases(chk, quick)
     n_exh = len(cases)
@@ -424,7 +534,19 @@ def run(chk):
         evs = c["evs"]
         outs = impl if isinstance(impl, list) else []
         nontrivial = len(set(outs)) > 1
-        chk.distinct((c["kind"], c["n"], c.get("w"), c.get("init"), c.get("pos"), c.get("i0"), tuple(evs)), nontrivial)
+        name = {"ff": "FFSynchronizer", "async": "AsyncFFSynchronizer", "reset": "ResetSynchronizer",
+                "pulse": "PulseSynchronizer"}[c["kind"]]
+        chk.distinct((c["kind"], c["n"], c.get("w"), c.get("init"), c.get("pos"), c.get("i0"),
+                      tuple(sorted(c.get("omit", ()))), c.get("iform"), tuple(evs)), nontrivial)
+        for o in c.get("omit", ()):
+            chk.hist("argument_left_to_default", f"{name}.{o}")
+        if not c.get("omit"):
+            chk.hist("argument_left_to_default", f"{name}: none")
+        if c["kind"] != "pulse":
+            chk.hist("input_written_as", c.get("iform", "signal"))
+        if c["kind"] == "ff":
+            chk.hist("ff_init_vs_input_power_on", ("init omitted, " if "init" in c.get("omit", ()) else "init given, ")
+                     + ("input starts non-zero" if c["i0"] & ((1 << c["w"]) - 1) else "input starts 0"))
         name = {"ff": "FFSynchronizer", "async": "AsyncFFSynchronizer", "reset": "ResetSynchronizer",
                 "pulse": "PulseSynchronizer"}[c["kind"]]
         chk.hist("primitive", name)
@@ -456,9 +578,10 @@ def run(chk):
         "cases": n_exh, "graphs": info,
     }
     chk.extra["F4_note"] = {
-        "at_primitive_outputs": "not observable: all flops of the private async_ff domain are resettable (init=1), "
-                                "so running the whole process on a reset rise only re-applies the reset values; "
-                                "ResetSynchronizer into an async_reset=True domain is part of both streams",
+        "at_primitive_outputs": "not observable, before or after the F4 repair: all flops of the private async_ff "
+                                "domain are resettable (init=1), so whatever the simulator runs on a reset rise "
+                                "ends in the reset values; ResetSynchronizer into an async_reset=True domain is "
+                                "part of both streams",
         "in_a_user_domain_driven_by_ResetSynchronizer": f4,
     }
     chk.cov["rule"] = (
